@@ -130,7 +130,64 @@ func ruleDataMatrixEncoder(c *Ctx) {
 				}
 			}
 		}
-		if hdr == nil {
+		var mkPad *ssa.MakeSlice
+		eachInstr(fn, func(b *ssa.BasicBlock, ins ssa.Instruction) {
+			if m, ok := ins.(*ssa.MakeSlice); ok {
+				mkPad = m
+			}
+		})
+		if hdr == nil && mkPad != nil {
+			// the padded slice is allocated at its final size and filled by position
+			c.expectPoly(R5, "datamatrix.addPadding/result-len", mkPad.Pos(), n, mkPad.Len, "cap")
+			c.expectCond(R5, "datamatrix.addPadding/first-pad-iff", mkPad.Pos(), n.ReachCond(fn, nil, mkPad.Block()), "len(data) < cap")
+			copied := false
+			for _, r := range *mkPad.Referrers() {
+				if call, ok := r.(*ssa.Call); ok {
+					if bi, ok := call.Common().Value.(*ssa.Builtin); ok && bi.Name() == "copy" && call.Common().Args[0] == ssa.Value(mkPad) && n.Norm(call.Common().Args[1]).String() == "data" {
+						copied = true
+						// copy returns min(len(dst), len(src)) = len(data) here (len(data) < cap on this path)
+						n.AtomAlias[n.Norm(call).asAtom()] = "len(data)"
+						n.Bind[call] = "len(data)"
+					}
+				}
+			}
+			c.Check(R5, "datamatrix.addPadding/copy", mkPad.Pos(), copied, "the data codewords are copied to the front", fmt.Sprint(copied))
+			nLoop, nFirst := 0, 0
+			eachInstr(fn, func(b *ssa.BasicBlock, ins ssa.Instruction) {
+				st, ok := ins.(*ssa.Store)
+				if !ok {
+					return
+				}
+				ia, ok := st.Addr.(*ssa.IndexAddr)
+				if !ok || ia.X != ssa.Value(mkPad) {
+					return
+				}
+				h := enclosingLoopHeader(b)
+				if h == nil {
+					nFirst++
+					c.expectPoly(R5, "datamatrix.addPadding/first-pad-pos", st.Pos(), n, ia.Index, "len(data)")
+					c.expectPoly(R5, "datamatrix.addPadding/first-pad", st.Pos(), n, st.Val, "129")
+					return
+				}
+				nLoop++
+				first, step, while, okR := reindexLoop(n, h, ia.Index)
+				if !okR {
+					c.Undecided(R5, "datamatrix.addPadding/loop", st.Pos(), "pad position is not an affine function of the loop variable")
+					return
+				}
+				c.Check(R5, "datamatrix.addPadding/loop-start", st.Pos(), pEqual(first, MustRef("len(data) + 1")) && pEqual(step, pConst(1)), "positions len(data)+1, len(data)+2, ...", fmt.Sprintf("first %s step %s", first, step))
+				c.expectCondC(R5, "datamatrix.addPadding/while", st.Pos(), while, MustRefCond("q < cap"))
+				v := st.Val
+				if cv, ok := v.(*ssa.Convert); ok {
+					v = cv.X
+				}
+				checkCases(c, R5, "datamatrix.addPadding/value", st.Pos(), n.valueCases(fn, h.Succs[0], v, 0), []edgeSpec{
+					{"129 + (149*(q+1))%253 + 1", "129 + (149*(q+1))%253 + 1 <= 254"},
+					{"129 + (149*(q+1))%253 + 1 - 254", "129 + (149*(q+1))%253 + 1 > 254"}})
+				n.env = n.env[:len(n.env)-1]
+			})
+			c.Check(R5, "datamatrix.addPadding/pads", fn.Pos(), nLoop == 1 && nFirst == 1, "first pad and the randomised pads", fmt.Sprintf("%d/%d", nFirst, nLoop))
+		} else if hdr == nil {
 			c.Undecided(R5, "datamatrix.addPadding/loop", fn.Pos(), "padding loop not found")
 		} else {
 			for _, s := range appendSites(fn) {
